@@ -157,7 +157,7 @@ pub fn main_loop(dispatch: fn(&Req) -> String) {
                 let smode = num() as u8;
                 let source = it.next().unwrap_or("s:")[2..].to_string();
                 let req = Req { gi, entry, seed, enc, pmode, amode, smode, source };
-                FUEL.with(|f| f.set(20_000_000));
+                FUEL.with(|f| f.set(1_000_000));
                 TICKS.with(|t| t.set(0));
                 DEPTH.with(|d| d.set(0));
                 MAX_DEPTH.with(|d| d.set(0));
